@@ -100,7 +100,8 @@ P = {
   text="Theorems over Catalogue.load (regions, routing, structural configurations, grouping into majors/minors, naming, partial alleles of fusions, "
        "duplicate removal, alias table) for every database and every catalogue the loader returns: minors of one major pairwise distinct, every configuration exists, "
        "core = function-altering / minors = the others (through naming, partial alleles and duplicate removal: C09_core_split), major names "
-       "unique and filed under their own name (C09_names_unique); for the step of the construction that establishes them (*_partial): "
+       "unique and filed under their own name (C09_names_unique), partial alleles carry only variants in regions their fusion retains "
+       "(C09_partials_retained); for the step of the construction that establishes them (*_partial): "
        "partition/major distinctness at grouping, alias soundness, partial content = parent variants in retained regions. NOT proved, decided "
        "on every run by decidable predicates evaluated in Coq on the model's AND the implementation's catalogue: reachability by "
        "get_allele, (structure, core set) distinct after renaming and partials, build independence. " + TIE + "All 38 shipped databases x {hg19, hg38} and generated databases (name collisions, fusions, "
